@@ -47,7 +47,7 @@ def run_diff(diff, base):
         props = sorted(p for p, v in REG["properties"].items() if set(v.get("units", [])) & set(changed))
         rows = []
         for prop in props:
-            env = dict(os.environ, VERIF_REPO=work + "/repo", VERIF_BUILD=work + "/build", VERIF_OUT=work + "/out",
+            env = dict(os.environ, VERIF_CACHE="1", VERIF_REPO=work + "/repo", VERIF_BUILD=work + "/build", VERIF_OUT=work + "/out",
                        VERIF_FFI_TARGET=work + "/ffi-target")
             q = subprocess.run([os.path.join(VERIF, "check"), prop, "quick"], capture_output=True, text=True, env=env)
             lines = [l.strip() for l in (q.stdout + q.stderr).split("\n") if l.strip()]
